@@ -27,8 +27,8 @@ from dds.structures_utils import SupportedTypeUtils as STU
 PROPERTY = "C17"
 EXPLANATION = "C17: blob round trip through the codec registry over the file-system model with symbolic contents and a symbolic sequence of codec registrations between write and read."
 STUBBED_NAMES = fsmodel.STUBBED_NAMES
-ASSUMPTIONS = ["file-system model = POSIX as validated by the differential self-test of this run", "clock stub", "text-mode files: POSIX semantics (no newline translation on write, universal newlines on read)"]
-OUTSIDE = ["pandas frames (parquet is C code writing through the real file system): not covered", "pickled values are concrete witnesses (None, a tuple, a dict): pickle is C code", "DBFS store (C19)", "strings longer than 2 code points / bytes longer than 2"]
+ASSUMPTIONS = ["file-system model = POSIX as validated by the differential self-test of this run", "clock stub", "text-mode files: POSIX semantics (no newline translation on write, universal newlines on read)", "rt.*.scaled (generated only when dds.codecs.builtins / dds.codec / dds.store / dds._lru_store define module-level integer constants >= 256, i.e. buffer or chunk sizes; none on the pinned tree): the constants are set to 1 for the query and for its real-OS replay, behaviour is assumed uniform in them"]
+OUTSIDE = ["pandas frames (parquet is C code writing through the real file system): not covered", "pickled values are concrete witnesses (None, a tuple, a dict): pickle is C code", "DBFS store (C19)", "strings longer than 2 code points / bytes longer than 2 (size-dependent behaviour is only reached through the scale-down of module-level size constants)"]
 FUNCTIONS_ENCODED = ["dds.codec.CodecRegistry.*", "dds.codec.codec_registry", "dds.codecs.builtins.*", "dds.store.LocalFileStore.store_blob", "dds.store.LocalFileStore.fetch_blob", "dds.store.LocalFileStore.has_blob"]
 BOUNDS = {"quick": {"str": "<= 1 arbitrary code point with registrations, <= 2 without", "bytes": "<= 2 arbitrary bytes", "registrations": "<= 3 out of 6 kinds, or a fresh process", "pickle": ["None", "(1, 'a')", "{'k': [1, 2]}"]}}
 BOUNDS["thorough"] = BOUNDS["quick"]
@@ -42,6 +42,39 @@ def selftest():
 
 def setup_query(sel):
     h.install_clock()
+
+
+SCALE_MODULES = ["dds.codecs.builtins", "dds.codec", "dds.store", "dds._lru_store"]
+
+
+def _size_constants():
+    """Module-level integer constants >= 256 of the codec / store modules (buffer and chunk sizes)."""
+    import importlib
+
+    out = []
+    for mn in SCALE_MODULES:
+        m = importlib.import_module(mn)
+        for k, v in sorted(vars(m).items()):
+            if type(v) is int and v >= 256 and not k.startswith("__"):
+                out.append((mn, k, v))
+    return out
+
+
+_SCALED = {}
+
+
+def _scale():
+    """rt.*.scaled: every size constant is set to 1, so that a value of 2 bytes spans several chunks (scale-down of buffer sizes;
+    the replay on the real OS runs with the same setting and says so)."""
+    import importlib
+
+    for (mn, k, v) in _size_constants():
+        _SCALED[(mn, k)] = v
+        setattr(importlib.import_module(mn), k, 1)
+
+
+def _scaled_note():
+    return (" [size constants scaled to 1: %s]" % ", ".join("%s.%s (%d)" % (mn, k, v) for ((mn, k), v) in sorted(_SCALED.items()))) if _SCALED else ""
 
 
 class UStr(FileCodecProtocol):
@@ -124,13 +157,15 @@ def rt_impl(a):
     kind = sel["type"]
     v = a["s"] if kind == "str" else (a["b"] if kind == "bytes" else PICKLED[a["pk"]])
     h.fresh_process()
+    if sel.get("scaled"):
+        _scale()
     fs = fsmodel.FS()
     fsmodel.install(fs)
     store = dstore.LocalFileStore("/s/int", "/s/data")
     ok = True
 
     def bad(msg):
-        LAST_DETAIL[0] = "%s value %r, registrations %r: %s" % (kind, v, [a.get("o1", sel.get("o1")), a.get("o2"), a.get("o3")], msg)
+        LAST_DETAIL[0] = "%s value %r, registrations %r: %s%s" % (kind, v, [a.get("o1", sel.get("o1")), a.get("o2"), a.get("o3")], msg, _scaled_note())
         return False
 
     try:
@@ -249,6 +284,9 @@ def queries(tier):
     qs = [{"id": "rt.%s.o%d" % (t, o1), "fn": "rt", "sel": {"type": t, "o1": o1}, "timeout": 600} for t in ("str", "bytes", "pickle") for o1 in range(7)]
     # longer strings without registrations (same process / fresh process)
     qs += [{"id": "rt.str.len2.%s" % ("same" if nr == 1 else "fresh"), "fn": "rt", "sel": {"type": "str", "noreg": nr, "slen": 2}, "timeout": 600} for nr in (1, 7)]
+    # scale-down of buffer / chunk sizes: only when the codec / store modules define such constants (none on the pinned tree)
+    if _size_constants():
+        qs += [{"id": "rt.%s.scaled" % t, "fn": "rt", "sel": dict({"type": t, "noreg": 1, "scaled": True}, **({"slen": 2} if t == "str" else {})), "timeout": 600} for t in ("str", "bytes")]
     qs.append({"id": "registry", "fn": "registry", "sel": {}, "timeout": 600})
     return qs
 
@@ -277,6 +315,8 @@ def replay(sel, args, fn):
     d = os.path.realpath(tempfile.mkdtemp(prefix="verif-c17-"))
     try:
         h.fresh_process()
+        if sel.get("scaled"):
+            _scale()
         store = dstore.LocalFileStore(os.path.join(d, "int"), os.path.join(d, "data"))
         store.store_blob(KEY, v, None)
         raw = open(os.path.join(d, "int", "blobs", KEY), "rb").read()
@@ -294,9 +334,9 @@ def replay(sel, args, fn):
         try:
             got = store.fetch_blob(KEY)
         except Exception as e:
-            return {"reproduced": True, "detail": "real OS: fetch_blob of a %s written as %r raises %s after registrations %r" % (kind, meta.get("protocol"), type(e).__name__, [args["o1"], args["o2"], args["o3"]])}
+            return {"reproduced": True, "detail": "real OS: fetch_blob of a %s written as %r raises %s after registrations %r%s" % (kind, meta.get("protocol"), type(e).__name__, [args["o1"], args["o2"], args["o3"]], _scaled_note())}
         if not (type(got) == type(v) and got == v):
-            return {"reproduced": True, "detail": "real OS: %s value %r written with %r is read back as %r after registrations %r" % (kind, v, meta.get("protocol"), got, [args["o1"], args["o2"], args["o3"]])}
+            return {"reproduced": True, "detail": "real OS: %s value %r written with %r is read back as %r after registrations %r%s" % (kind, v, meta.get("protocol"), got, [args["o1"], args["o2"], args["o3"]], _scaled_note())}
         return {"reproduced": False, "detail": "real OS: value round-trips"}
     finally:
         shutil.rmtree(d, ignore_errors=True)
